@@ -565,7 +565,18 @@ fn concurrent(case: &Value) -> Value {
             .map(|(a, op)| Some(run_op(a, op)))
             .collect();
         let schedule: Vec<usize> = case["schedule"].as_array().unwrap().iter().map(|x| x.as_u64().unwrap() as usize).collect();
-        for &i in &schedule {
+        // optional: somebody else holds the store's lock from schedule step `from` until step `to` (exclusive)
+        let hold_from = case["hold"]["from"].as_u64().map(|x| x as usize);
+        let hold_to = case["hold"]["to"].as_u64().map(|x| x as usize);
+        let hold_write = case["hold"]["kind"].as_str().unwrap_or("write") == "write";
+        let mut held: Option<HeldLock> = None;
+        for (step, &i) in schedule.iter().enumerate() {
+            if Some(step) == hold_to {
+                held = None;
+            }
+            if Some(step) == hold_from {
+                held = base.hold(hold_write);
+            }
             if let Some(f) = futs[i].as_mut() {
                 polls[i] += 1;
                 if let Poll::Ready(v) = f.as_mut().poll(&mut cx) {
@@ -574,6 +585,7 @@ fn concurrent(case: &Value) -> Value {
                 }
             }
         }
+        drop(held);
         // drain: finish whatever the schedule left unfinished, round robin; a full round in which
         // every remaining ceremony was polled many times without any finishing is reported.
         let mut rounds = 0;
